@@ -10,7 +10,7 @@ PROPS = {
     "C15": dict(
         targets=["c15_hist_a", "c15_hist_b", "c15_hist_c", "c15_hist_d"],
         level="exploration",
-        rule="one tape decodes a system (M-matrices on 9 graph families n<=48, optionally with upwind convection; 2x2-block SPD Kronecker systems; saddle-point systems with "
+        rule="one tape decodes a system (M-matrices on 9 graph families n<=32, optionally with upwind convection; 2x2-block SPD Kronecker systems; saddle-point systems with "
              "contiguous/interleaved pmask), the configuration of ONE long-lived object (kinds: make_solver<amg>, make_solver<as_preconditioner>, nested make_solver, deflated_solver, "
              "make_solver<cpr>, make_solver<schur_pressure_correction> with inner make_solver objects, make_block_solver; solver in {cg,bicgstab,bicgstabl,gmres,fgmres,lgmres,idrs,richardson} "
              "with tol, maxiter (1,2,3,5,20,100), M, K, L, s, pside, check_after, ns_search, always_reset; 4 coarsenings x 9 relaxations, coarse_enough 2/4/10/3000, direct_coarse, "
@@ -39,7 +39,7 @@ MANIFEST_TEXT = {
         level_text="Generated-input search over call histories on one object of each of seven object kinds (all eight Krylov solvers, 4 coarsenings x 9 relaxations, CPR, Schur pressure "
                    "correction with nested long-lived inner solvers, deflation, block solver, nested make_solver). Failing calls (too small maxiter, NaN/Inf right-hand sides, breakdown with "
                    "singular / hostile alternative matrices -> 'zero sigma', 'zero M[k,k]', 'Zero rho' exceptions, non-finite results) are followed by normal calls. The model is exact "
-                   "(a fresh object), so every mismatch is a real state leak; exploration only, histories of length <= 10, n <= 48, one thread.",
+                   "(a fresh object), so every mismatch is a real state leak; exploration only, histories of length <= 10, n <= 32, one thread.",
         level_note="trusted: props/c15_common.hpp (history decoder, comparison), determinism of single-threaded amgcl code",
         design_ref="DESIGN.md section 4, C15",
     ),
